@@ -1,7 +1,7 @@
 (* C07.v — RankValues is a total preorder on every supported value type
    Statements only: every theorem is closed by [exact] of a lemma proved elsewhere, and its
    axioms are printed.  Generated once by tools/mkprop.py from the proved lemmas' statements. *)
-From Verif Require Import Base Sorter Value SorterProofs CollateProofs.
+From Verif Require Import Base Sorter Value SorterProofs Seq Coll SetProofs CollateProofs.
 
 Theorem C07_rank_never_hangs :
   forall (M : nat) (a b : val), rank0 M a b <> OutOfFuel.
@@ -45,7 +45,7 @@ Theorem C07_rank_strongly_transitive :
 Proof. exact rank_ctr. Qed.
 
 Theorem C07_rank_total_preorder_for_sets_and_sorting :
-  forall M : nat, total_preorder (rkU M).
+  forall M : nat, SorterProofs.total_preorder (rkU M).
 Proof. exact rank_total_preorder. Qed.
 
 Theorem C07_equal_rank_interchangeable :
@@ -150,6 +150,33 @@ Theorem C07_map_insertion_order_irrelevant :
          rank0 M c (VMapping m ks vs) = rank0 M c (VMapping m ks' vs').
 Proof. exact rank_map_order_free. Qed.
 
+Theorem C07_map_insertion_order_needs_distinct_keys_refuted :
+  exists (M : nat) (m : mkind) (ks vs ks' vs' : list val),
+           is_map_kind m = true /\
+           Permutation.Permutation (zipkv ks vs) (zipkv ks' vs') /\
+           inU M (VMapping m ks vs) = true /\
+           inU M (VMapping m ks' vs') = true /\
+           rank0 M (VMapping m ks vs) (VMapping m ks' vs') <> R Eq /\
+           compare0 M (VMapping m ks vs) (VMapping m ks' vs') = R true.
+Proof. exact rank_map_order_free_needs_distinct_keys_refuted. Qed.
+
+Theorem C07_discharges_total_preorder_of_set_theorems :
+  forall M : nat, total_preorder (U M) (rkU M).
+Proof. exact rank_total_preorder_for_sets. Qed.
+
+Theorem C07_sorting_with_collator_is_ordered_permutation :
+  forall (M : nat) (l : list (U M)),
+         Sorted.StronglySorted (not_gt (rkU M)) (sort_values (rkU M) l) /\
+         Permutation.Permutation (sort_values (rkU M) l) l.
+Proof. exact sort_with_collator_sorted. Qed.
+
+Theorem C07_set_search_with_collator_finds_equal_member :
+  forall (M : nat) (zero : U M) (l : list (U M)) (v : U M) (k : nat),
+         StrictSorted (U M) (rkU M) l ->
+         find_index zero (rkU M) l v = Ret (k, true) ->
+         1 <= k <= length l /\ rkU M v (nth (k - 1) l zero) = Eq.
+Proof. exact set_search_with_collator. Qed.
+
 Theorem C07_result_independent_of_depth_history :
   forall (M M' f d : nat) (a b : val),
          inU M' a = true ->
@@ -226,5 +253,9 @@ Print Assumptions C07_sequence_lexicographic.
 Print Assumptions C07_proper_prefix_first.
 Print Assumptions C07_map_key_then_value_over_sorted_keys.
 Print Assumptions C07_map_insertion_order_irrelevant.
+Print Assumptions C07_map_insertion_order_needs_distinct_keys_refuted.
+Print Assumptions C07_discharges_total_preorder_of_set_theorems.
+Print Assumptions C07_sorting_with_collator_is_ordered_permutation.
+Print Assumptions C07_set_search_with_collator_finds_equal_member.
 Print Assumptions C07_result_independent_of_depth_history.
 Print Assumptions C07_calls_on_one_collator_independent.
